@@ -602,6 +602,16 @@ def run(tier, seed, model_ok=True):
         res.corr_failures += sub.corr_failures
         for k, v in sub.distribution.items():
             res.count(k, v)
+    # (d) single messages far larger than the send-buffer capacity (17 MiB at capacity 0 / 1 KB, 40 MB at the default), library-default
+    # receive-slot size: the payload regenerated in the handler must equal what was sent (shared traffic harness, delivery oracle)
+    from lib import campaign as K
+    from props import c01
+    hb, herr = C.build_harness("traffic")
+    if hb is None:
+        res.corr_failures.append({"relation": "harness builds against /repo", "what": (herr or "")[-800:], "case": None})
+    else:
+        huge = [c for c in c01.special_cases(tier, seed) if getattr(c[1], "default_irecv_size", None)]
+        K.run_cases(res, hb, huge, ("delivery",), extra=None, log_bytes=0, nontrivial=lambda out: out.get("asyncs", 0) > 0)
     cfgs = traffic_configs(tier, seed)
     for c in cfgs:
         c["sb"] = 1 if sb else 0
@@ -683,6 +693,10 @@ def replay(data):
             if isinstance(b.get("case"), dict) and b["case"].get("part") == "archive":
                 case = b["case"]
                 break
+    if "scenario" in case:     # a case of the shared traffic harness (huge single messages)
+        from lib import campaign as K
+        hb, _ = C.build_harness("traffic")
+        return K.replay_case(hb, data, ("delivery",), None, log_bytes=0)
     san = bool(case.get("sanitize") or (case.get("run") or {}).get("sanitize"))
     binary, err = build_variant("wiresan", SAN_FLAGS) if san else C.build_harness("wire")
     if binary is None or not case:
